@@ -750,3 +750,22 @@ Proof.
   intros ops Hg Hd. apply glue_fixed_timers_proved. split; [assumption|]. apply parity_adom; [|assumption].
   split; [reflexivity|intros x []].
 Qed.
+
+(** ** the boolean domain check is sound *)
+Lemma aop_ok_b_sound a o : aop_ok_b a o = true -> aop_ok a o.
+Proof.
+  destruct o; cbn [aop_ok_b aop_ok]; intros H; try discriminate; try exact I.
+  - apply andb_prop in H. destruct H as [H1 H2]. apply Z.eqb_eq in H1. apply Z.ltb_lt in H2. split; assumption.
+  - apply andb_prop in H. destruct H as [H H3]. apply andb_prop in H. destruct H as [H1 H2].
+    apply Z.eqb_eq in H1. apply Z.leb_le in H2. apply Z.ltb_lt in H3. split; [assumption|lia].
+  - apply andb_prop in H. destruct H as [H1 H2]. apply Z.eqb_eq in H1. split; [assumption|].
+    intros L x Hx. apply orb_prop in H2. destruct H2 as [H2|H2].
+    + apply negb_true_iff, Z.ltb_ge in H2. lia.
+    + rewrite forallb_forall in H2. specialize (H2 x Hx). apply negb_true_iff, Z.eqb_neq in H2. assumption.
+Qed.
+
+Lemma adom_b_sound : forall ops a, adom_b a ops = true -> adom a ops.
+Proof.
+  induction ops as [|o r IH]; intros a H; [exact I|]. cbn [adom_b adom] in *. apply andb_prop in H. destruct H as [H1 H2].
+  split; [apply aop_ok_b_sound; assumption|apply IH; assumption].
+Qed.
